@@ -236,7 +236,7 @@ R["C11"] = {"harnesses": [
 TN_ESC = {"escdocs": 1, "atommask": 1025, "kmask0": 17, "maxtok": 1, "tokmask": 33, "nvals": 2, "shapemask": 0}
 TN_PLAIN = {"escdocs": 0, "atommask": 0, "kmask0": 63, "maxtok": 1, "tokmask": 1, "nvals": 2, "shapemask": 8218}
 R["C15"] = {"harnesses": [
-    H("H_Escape", [{"natoms": 1, "atommask": 524287}], [{"natoms": 1, "atommask": 524287}, {"natoms": 2, "atommask": 3391}], ["escape/on", "escape/off", "escape/end"],
+    H("H_Escape", [{"natoms": 1, "atommask": 1048575}], [{"natoms": 1, "atommask": 1048575}, {"natoms": 2, "atommask": 3391}], ["escape/on", "escape/off", "escape/end"],
       "4 document shapes carrying strings (values and member names, top level, nested, inside arrays) of natoms atoms from the escape alphabet: any printable ASCII byte (symbolic: covers <, >, &), escaped quote, escaped backslash, \\u001f, raw U+2028, raw U+2029, \\u2028, raw non-BMP, lone-surrogate escape, \\n, \\u003c, \\f, \\b, \\t, \\r, \\/; 6 patches (empty, add elsewhere, copy/move of the string, add of a value carrying such a string, copy of the whole document); EscapeHTML on/off; indent of 1-2 bytes from space/tab"),
     H("H_TestNeutral", [TN_ESC, TN_PLAIN], [dict(TN_ESC, atommask=2047, kmask0=63, maxtok=2), dict(TN_PLAIN, maxtok=2, shapemask=8191)], ["testneutral/end"],
       "one operation plus one PASSING test (value = the current value at a chosen path, before or after the operation) vs the operation alone: byte-identical output; EscapeHTML on/off; documents with <, >, & in strings"),
@@ -293,12 +293,12 @@ R["C09"] = {"harnesses": [
     "outside_bound": ["histories with more than 2 intervening calls (1 in quick)", "the inductive step covers the decoder state only (encodeState and scanner pool are covered by the histories)"]}
 
 R["C17"] = {"harnesses": [
-    H("H_Codec_RoundTrip", [{"natoms": 1, "atommask": 524287, "pad": 0}, {"natoms": 1, "atommask": 1, "pad": 1}], [{"natoms": 2, "atommask": 3391, "pad": 0}, {"natoms": 1, "atommask": 524287, "pad": 1}], ["codec/object", "codec/roundtrip-end"],
+    H("H_Codec_RoundTrip", [{"natoms": 1, "atommask": 1048575, "pad": 0}, {"natoms": 1, "atommask": 1, "pad": 1}], [{"natoms": 2, "atommask": 3391, "pad": 0}, {"natoms": 1, "atommask": 1048575, "pad": 1}], ["codec/object", "codec/roundtrip-end"],
       "8 JSON templates (string, number, mixed array, object, nested object/array, escape-alphabet member name, array of objects, 23-digit integer) with symbolic leaves (numbers d.d / -d / dEd, strings of natoms escape-alphabet atoms, one-letter symbolic names), optionally padded with symbolic whitespace bytes at every structural position: UnmarshalValid -> Marshal / MarshalEscaped(false) read back as the same value; Compact / Indent / HTMLEscape keep value and member order; Indent = Compact re-indented; key lists of UnmarshalWithKeys / UnmarshalValidWithKeys in document order"),
-    H("H_Codec_Differential", [{"atommask": 524287}], None, ["codec/differential-end"],
+    H("H_Codec_Differential", [{"atommask": 1048575}], None, ["codec/differential-end"],
       "fork vs the standard library's encoding/json, BOTH executed from source: Marshal bytes and Unmarshal results for map[string]any, []any, []string, map[string]string, string and a harness-declared struct type with a renamed field, '-', omitempty, ',string', a nested pointer struct, a map field and an embedded struct; string leaves from the escape alphabet, bool symbolic, ints from {0,7,42}; []byte values of 0, 1, 47, 48, 49, 63, 64, 65, 100 bytes (base64 path, scratch-buffer boundary) bare and inside a map"),
     H("H_CreateBig", [{}], None, ["createbig/end"], "numbers outside float64 keep their literal through UnmarshalValid on a fresh pooled state (seen through CreateMergePatch)"),
-    H("H_Codec_Stream", [{"atommask": 524287}], None, ["codec/stream-end"],
+    H("H_Codec_Stream", [{"atommask": 1048575}], None, ["codec/stream-end"],
       "Decoder (UseNumber) over a stream of two values separated by a symbolic whitespace byte, More(), and Encoder with SetEscapeHTML on/off and 5 SetIndent settings (none, indent only, prefix only, both): same decoded values as the standard library's Decoder, the Encoder's bytes equal to the standard library Encoder's under the same settings, one value per line without indentation, values read back unchanged"),
     H("H_C17_Fold", [{"ns": 2, "nt": 2}, {"ns": 1, "nt": 3}, {"ns": 2, "nt": 4}], [{"ns": 2, "nt": 2}, {"ns": 1, "nt": 3}, {"ns": 2, "nt": 4}, {"ns": 3, "nt": 3}, {"ns": 3, "nt": 5}], ["C17/fold/end"],
       "equalFoldRight, asciiEqualFold, simpleLetterEqualFold vs a reference simple-fold comparison, under their documented preconditions: s = ns unconstrained ASCII bytes, t = nt unconstrained bytes (covers K/U+212A and S/U+017F)")],
